@@ -6,7 +6,6 @@ import (
 	"time"
 
 	"github.com/ontio/ontology-crypto/keypair"
-	"github.com/ontio/ontology/account"
 
 	"verif/harness/hx"
 )
@@ -34,14 +33,14 @@ func pick(c *hx.Ctx, l []string) string { return l[c.Intn(len(l))] }
 type genCfg struct {
 	nOps        int
 	allowNew    bool
-	allowDup    bool // import of an address the wallet holds (finding class)
-	allowEmpty  bool // ChangePassword to "" (finding class)
+	allowDup    bool // import of an address the wallet holds (must be refused)
+	allowEmpty  bool // ChangePassword to "" (must be refused)
 	allowBadImp bool // import with foreign parameters / empty password (caller's obligation broken)
 	newWeight   int
 }
 
-// generator builds the next operation from the live state of the client, so that the main stream
-// can stay outside the finding classes (which depend on whether an address is currently held).
+// generator builds the next operation from the live state of the client (which addresses are
+// held, what the current passwords are), so that most operations succeed.
 func generator(c *hx.Ctx, h *hist, cfg genCfg) opGen {
 	return func(r *runner, i int) *opRec {
 		if i >= cfg.nOps {
@@ -224,21 +223,6 @@ func randKeyTypes(c *hx.Ctx, n int) []int {
 	return kt
 }
 
-// The three witnesses of Proofs/C38.v (wit_newaccount, wit_dup_import, wit_empty_pwd), run on the
-// implementation on every run.
-func witnesses() []hist {
-	def := prmArr(*keypair.GetScryptParameters())
-	low := prmArr(account.VerifLowSecurityParam())
-	return []hist{
-		{Stream: "witness:newaccount", Prm: low, MaxPwd: 2, Ops: []opRec{{Kind: "new", Slot: -1, Label: "main", Sch: 1, Pwd: "pw"}}},
-		{Stream: "witness:dup-import", Prm: def, KeyTyp: []int{0}, MaxPwd: 2, Ops: []opRec{
-			{Kind: "import", Slot: 0, Label: "main", Sch: 1, Pwd: "pw"}, {Kind: "import", Slot: 0, Label: "main", Sch: 1, Pwd: "pw"},
-			{Kind: "delete", Slot: 0, Pwd: "pw"}}},
-		{Stream: "witness:empty-pwd", Prm: def, KeyTyp: []int{0}, MaxPwd: 2, Ops: []opRec{
-			{Kind: "import", Slot: 0, Label: "main", Sch: 1, Pwd: "pw"}, {Kind: "chpwd", Slot: 0, Pwd: "pw", New: ""}}},
-	}
-}
-
 // Fixed histories kept as regression inputs: importing accounts whose metadata is flagged as default
 // (read from another wallet's default account) must not move or duplicate the default flag.
 func regressions() []hist {
@@ -270,7 +254,7 @@ func Run(c *hx.Ctx) {
 			runHist(c, h, seq, nil)
 		}
 	}
-	for _, h := range append(witnesses(), regressions()...) {
+	for _, h := range regressions() {
 		seq++
 		runHist(c, h, seq, nil)
 	}
@@ -290,7 +274,7 @@ func Run(c *hx.Ctx) {
 	for i := 0; i < c.N(110, 1500) && !over("light"); i++ {
 		h := hist{Stream: "light", Prm: lightParams[c.Intn(len(lightParams))], KeyTyp: randKeyTypes(c, 2+c.Intn(3))}
 		seq++
-		runHist(c, h, seq, generator(c, &h, genCfg{nOps: 3 + c.Intn(14)}))
+		runHist(c, h, seq, generator(c, &h, genCfg{nOps: 3 + c.Intn(14), allowNew: i%3 == 0, newWeight: 10}))
 	}
 	// default parameters (slow key derivation): short histories with NewAccount
 	for i := 0; i < c.N(2, 10) && !over("default"); i++ {
@@ -299,12 +283,13 @@ func Run(c *hx.Ctx) {
 		seq++
 		runHist(c, h, seq, generator(c, &h, genCfg{nOps: 2 + c.Intn(2), allowNew: true, newWeight: 30}))
 	}
-	// histories that enter the finding classes (the model is faithful there too)
-	for i := 0; i < c.N(12, 120) && !over("finding"); i++ {
-		h := hist{Stream: "finding", Prm: lightParams[c.Intn(len(lightParams))], KeyTyp: randKeyTypes(c, 1+c.Intn(3))}
+	// adversarial: imports of held addresses, empty new passwords, NewAccount on light wallets (the
+	// three former defects; corpus/C38 holds their minimal witnesses)
+	for i := 0; i < c.N(14, 140) && !over("adversarial"); i++ {
+		h := hist{Stream: "adversarial", Prm: lightParams[c.Intn(len(lightParams))], KeyTyp: randKeyTypes(c, 1+c.Intn(3))}
 		cfg := genCfg{nOps: 4 + c.Intn(10), allowDup: true, allowEmpty: true}
-		if i%6 == 0 {
-			cfg.allowNew, cfg.newWeight = true, 8
+		if i%2 == 0 {
+			cfg.allowNew, cfg.newWeight = true, 12
 		}
 		seq++
 		runHist(c, h, seq, generator(c, &h, cfg))
